@@ -220,12 +220,12 @@ def random_tables(rng, count: int, max_rows: int = 20) -> list:
 def _num(v):
     """A cell of the real table as an integer (or NONINT)."""
     try:
-        f = Fraction(float(v))
+        i = int(v)
     except (TypeError, ValueError, OverflowError):
         return NONINT
-    if f.denominator != 1 or abs(f.numerator) >= 10**9:
+    if i != v or abs(i) >= 10**9:
         return NONINT
-    return int(f.numerator)
+    return i
 
 
 def _rows(df) -> list:
